@@ -9,6 +9,10 @@ add_engine_binary('units', 'units_engine.cpp', [O('units_reg.cpp', True, d) for 
 
 add_engine_binary('qty', 'qty_engine.cpp', [O('qty_reg.cpp', True, ['-DVF_NT=%d' % n, '-DVF_CHUNK=%d' % c]) for n in range(3) for c in range(6)])
 
+add_engine_binary('rel', 'rel_engine.cpp', [O('rel_reg.cpp', True, ['-DVF_NT=%d' % n, '-DVF_CHUNK=%d' % c]) for n in range(3) for c in range(6)])
+
+BINARIES['math'] = dict(objs=[O('math_engine.cpp', True)], libs=D.ENGINE_LIBS)
+
 PLANS = {}
 def plan(name):
     def deco(fn): PLANS[name] = fn; return fn
@@ -45,9 +49,15 @@ def c02(run):
     run.assumptions += ['the plain scalar PhQ::Convert is the reference for every other entry point (it is itself validated against the symbol oracle by C01)',
                         'reading of "identity": Convert(x,u,u) is bit-exact for the standard unit and within the rounding of the two legs (2 ulp) otherwise (DESIGN 6)']
 
+@plan('C09')
+def c09(run):
+    engine_step(run, 'math', ['C09'])
+    run.assumptions += ['references are the textbook index-notation formulas evaluated in __float128']
+
 @plan('C14')
 def c14(run):
     engine_step(run, 'qty', ['C14'])
+    engine_step(run, 'math', ['C14'])
     run.assumptions += ['no NaN components (the statement is about non-NaN values)']
 
 @plan('C15')
@@ -57,11 +67,27 @@ def c15(run):
 @plan('C16')
 def c16(run):
     engine_step(run, 'qty', ['C16'])
+    engine_step(run, 'math', ['C16'])
     run.assumptions += ['narrowing is generated only inside the finite range of the narrower type (out-of-range float narrowing is undefined behaviour in C++)']
 
 @plan('C17')
 def c17(run):
     engine_step(run, 'qty', ['C17'])
+
+@plan('C03')
+def c03(run):
+    engine_step(run, 'rel', ['C03'])
+    run.assumptions += ['operand windows are chosen so that no scaled operand, intermediate product or result leaves the normal range (DESIGN 5 C03)']
+
+@plan('C04')
+def c04(run):
+    engine_step(run, 'rel', ['C04'])
+    run.assumptions += ['the harness is built without -ffast-math, so the IEEE operation of the engine and of the library agree bit for bit']
+
+@plan('C05')
+def c05(run):
+    engine_step(run, 'rel', ['C05'])
+    run.assumptions += ['"a few ulps" is read relative to the measured conditioning of the composed map: 4(1+kappa) ulp (DESIGN 4.6)']
 
 @plan('C06')
 def c06(run):
